@@ -24,9 +24,8 @@ package sql
 
 // a constraint starting with ADD is attached to the table of the struct whose declaration carries the comment
 //@ func generateCustomConstraint
-//@   props C16
+//@   props C16 C08
 //@   requires ta.Name != nil
-//@   modifies *
 //@   callarg fmt.Sprintf@1 1 gen.SQLTableName(ta.TableName())
 
 // ---------------------------------------------------------------- C08 (kernel): nullability, CHECKs, constraints
@@ -99,14 +98,35 @@ package sql
 //@   loop ta.Columns.1 invariant len(colTypes) == len(ta.Columns) && (forall i int :: 0 <= i && i < n ==> colTypes[i] == "\t" + createStmt(ta.Columns[i], ta.Primary() == i))
 //@   loop ta.Columns.1 invariant fresh(colTypes) && allocated(colTypes)
 //@   loop ta.Columns.1 invariant isnil(decls) || (fresh(decls) && allocated(decls))
+//@   -- a jsonb column gets its own declaration (the ID names the validator, the table AND the column, so that the
+//@   -- duplicate removal of WriteDeclarations keeps one per column) whose text checks that column with that validator
+//@   loop ta.Columns.1 endassert is(f.SQLType, sql.JSON) ==> (exists d int :: 0 <= d && d < len(decls) && decls[d].ID == prefixDeclJSONConstraint + second(jsonValidations(as(f.SQLType, sql.JSON))) + gen.SQLTableName(ta.TableName()) + f.Field.Field.Name() && decls[d].Content == fmt.Sprintf("ALTER TABLE %s ADD CONSTRAINT %s_gomacro CHECK (%s(%s));", gen.SQLTableName(ta.TableName()), f.Field.Field.Name(), second(jsonValidations(as(f.SQLType, sql.JSON))), f.Field.Field.Name()))
 
 // guard fields: a default plus an equality CHECK, on the table of the struct and the guarded column
 //@ func generateQuardConstraint
 //@   props C08
 //@   nosafety
-//@   modifies *
 //@   ensures len(result) == 2
 //@   callarg fmt.Sprintf@1 1 gen.SQLTableName(ta.TableName())
 //@   callarg fmt.Sprintf@1 2 column.Field.Field.Name()
 //@   callarg fmt.Sprintf@2 1 gen.SQLTableName(ta.TableName())
 //@   callarg fmt.Sprintf@2 2 column.Field.Field.Name()
+
+// ---------------------------------------------------------------- C08: the composition in Generate
+// type invariant of the analysed structs (established by package analysis, a precondition here)
+//@ pred structWF(s *an.Struct) bool = s != nil && s.Name != nil && (forall i int :: 0 <= i && i < len(s.Fields) ==> s.Fields[i].Field != nil) && (forall i, j int :: 0 <= i && i < j && j < len(s.Fields) ==> s.Fields[i].Field != s.Fields[j].Field)
+//@ pred tableOK(ta sql.Table) bool = ta.Name != nil && (forall i int :: 0 <= i && i < len(ta.Columns) ==> ta.Columns[i].Field.Field != nil)
+
+// per table, in table order: every user constraint yields one statement, every foreign key of the table
+// exactly one FOREIGN KEY statement attached to THAT table, every guard column its two statements (and a
+// column that is not a guard none)
+//@ func Generate
+//@   props C08
+//@   nosafety
+//@   requires ana != nil && (forall s *an.Struct :: is(s, *an.Struct) ==> structWF(s))
+//@   loop tables.1 index t
+//@   loop tables.1 invariant forall k int :: 0 <= k && k < len(tables) ==> tableOK(tables[k])
+//@   loop ta.CustomConstraints.1 invariant tableOK(ta)
+//@   loop ta.CustomConstraints.1 endassert len(constraints) == athead(len(constraints)) + 1
+//@   loop ta.ForeignKeys().1 endassert len(constraints) == athead(len(constraints)) + 1 && constraints[len(constraints)-1] == generateForeignConstraint(ta.TableName(), foreign)
+//@   loop ta.Columns.1 endassert len(constraints) == athead(len(constraints)) + ite(column.Field.Tag.Get("gomacro-sql-guard") != "", 2, 0)
